@@ -3,7 +3,8 @@ EXTENDS UdpConc, Json
 
 Ann(h, k, d) == [kind |-> "announce", h |-> h, key |-> k, stop |-> FALSE, d |-> d]
 Stop(h, k)   == [kind |-> "announce", h |-> h, key |-> k, stop |-> TRUE, d |-> 0]
-Scr(h)       == [kind |-> "scrape", h |-> h]
+Scr(h)       == [kind |-> "scrape", hs |-> <<h>>]
+Scr2         == [kind |-> "scrape", hs |-> <<1, 2>>]     \* two torrents of one shard in one request
 Cln(now)     == [kind |-> "clean", now |-> now]
 
 MCThreads == {1, 2, 3}
@@ -20,11 +21,16 @@ MCCatalogue ==
     {[t \in MCThreads |-> CASE t = 1 -> p1 [] t = 2 -> p2 [] t = 3 -> p3] :
         p1 \in {<<Ann(1, 1, 5), Scr(1)>>, <<Ann(1, 1, 1), Stop(1, 1)>>, <<Ann(1, 2, 5)>>, <<Stop(1, 1), Ann(1, 1, 5)>>},
         p2 \in {<<Cln(1), Cln(1)>>, <<Cln(9)>>, <<Cln(1), Scr(1)>>},
-        p3 \in {<<Ann(1, 1, 1), Stop(1, 1)>>, <<Ann(1, 3, 1), Scr(1)>>, <<Scr(1), Scr(1)>>, <<Ann(2, 1, 5), Cln(1)>>}}
+        p3 \in {<<Ann(1, 1, 1), Stop(1, 1)>>, <<Ann(1, 3, 1), Scr(1)>>, <<Scr(1), Scr(1)>>, <<Ann(2, 1, 5), Cln(1)>>,
+                <<Ann(2, 1, 5), Scr2>>, <<Scr2>>}}
 
 QuickCatalogue ==
     {[t \in MCThreads |-> CASE t = 1 -> p1 [] t = 2 -> p2 [] t = 3 -> p3] :
         p1 \in {<<Ann(1, 1, 5), Scr(1)>>, <<Stop(1, 1), Ann(1, 1, 5)>>},
         p2 \in {<<Cln(1), Cln(1)>>, <<Cln(1), Scr(1)>>},
-        p3 \in {<<Ann(1, 1, 1), Stop(1, 1)>>, <<Ann(1, 3, 1), Scr(1)>>}}
+        p3 \in {<<Ann(1, 1, 1), Stop(1, 1)>>, <<Ann(1, 3, 1), Scr(1)>>, <<Ann(2, 1, 5), Scr2>>}}
+
+(* negative control for recursive read locking: a two-hash scrape against writers of the same shard *)
+RecursiveCatalogue ==
+    {[t \in MCThreads |-> CASE t = 1 -> <<Ann(1, 1, 5)>> [] t = 2 -> <<Cln(1)>> [] t = 3 -> <<Scr2>>]}
 =============================================================================
